@@ -473,6 +473,85 @@ def config_workload(part, tier):
         shutil.rmtree(tmp, ignore_errors=True)
 
 
+def auth_workload(part, tier):
+    """Sessions authenticating through SLUGS services whose URL embeds a password (a canary): every
+    scripted behaviour of the service (success, unknown user, failing group lookup with 401/404/500/503,
+    unreachable on the first or second lookup, non-JSON body) x requests with and without request
+    credentials. The answers are REAL requests.Response objects and exceptions, so that whatever text
+    the HTTP library puts into its errors is what gets logged."""
+    from kmip.services.server.auth import slugs as slugs_mod
+    global _FORMS
+    pw = CANARIES['password'].hex()
+    saved_forms, saved_requests = _FORMS, slugs_mod.requests
+    _FORMS = canary_forms() + [('slugs-url-password', pw)]
+    scripts = ['ok', 'user404', 'user500', 'groups401', 'groups404', 'groups500', 'groups503',
+               'groups204', 'connerr1', 'connerr2', 'nonjson-user', 'nonjson-groups']
+
+    class Scripted(object):
+        def __getattr__(self, name):
+            import requests
+            return getattr(requests, name)
+
+        def get(self, url, timeout=None):
+            script = url.split('/S=')[1].split('/')[0]
+            is_groups = url.endswith('/groups')
+            which, _, code = script.partition('s' if script.startswith('groups') else 'r')
+            if script == 'ok':
+                return W.http_response(url, 200, {'groups': ['g1']} if is_groups else {})
+            if script.startswith('user') and not is_groups:
+                return W.http_response(url, int(script[4:]), {})
+            if script.startswith('groups') and is_groups:
+                return W.http_response(url, int(script[6:]), {})
+            if script == 'connerr1' and not is_groups:
+                raise W.http_connection_error(url)
+            if script == 'connerr2' and is_groups:
+                raise W.http_connection_error(url, 'Connection reset by peer')
+            if script == 'nonjson-user' and not is_groups:
+                return W.http_response(url, 200, 'NONJSON')
+            if script == 'nonjson-groups' and is_groups:
+                return W.http_response(url, 200, 'NONJSON')
+            return W.http_response(url, 200, {'groups': ['g1']} if is_groups else {})
+
+    slugs_mod.requests = Scripted()
+    cred = cobjects.Credential(
+        credential_type=E.CredentialType.USERNAME_AND_PASSWORD,
+        credential_value=cobjects.UsernamePasswordCredential(
+            username='alice', password=CANARIES['password'].decode('latin-1')))
+    w0 = W.World()
+    try:
+        w0.do((1, 4), W.p_create())
+        for script in scripts:
+            for rname, items, hdr in (('get', [W.p_get('1')], {}), ('create', [W.p_create()], {}),
+                                      ('get+credentials', [W.p_get('1')], {'credentials': [cred]})):
+                w = w0.clone()
+                try:
+                    settings = [('auth:slugs', {'enabled': 'True',
+                                                'url': 'http://kmipsvc:%s@slugs.internal:8443/S=%s' % (pw, script)})]
+                    data = W.encode_request(W.build_request((1, 4), items, **hdr))
+                    conn = W.FakeConnection(W.make_cert(('alice',), 'client'), data)
+                    sess = W.session_mod.KmipSession(w.engine, conn, ('127.0.0.1', 1), name='c20-auth',
+                                                     enable_tls_client_auth=True, auth_settings=settings)
+                    W.LOGS.clear()
+                    sess.run()
+                    part.count('executions')
+                    part.count('auth_executions')
+                    ctx = {'workload': 'auth', 'script': script, 'request': rname}
+                    where = 'auth-%s|%s' % (script, rname)
+                    for d in conn.sent:
+                        try:
+                            scan_response(part, W.Resp(d), where, ctx)
+                        except Exception:   # noqa
+                            pass
+                    scan_records(part, where, ctx, sent=(data.hex(),))
+                finally:
+                    w.close()
+        part.sample({'workload': 'SLUGS URL with embedded password', 'scripts': scripts})
+    finally:
+        slugs_mod.requests = saved_requests
+        _FORMS = saved_forms
+        w0.close()
+
+
 def _worker(task):
     kind, tier, shard, n = task
     part = Part()
@@ -483,6 +562,8 @@ def _worker(task):
         decode_failure_workload(part, tier, shard, n)
     elif kind == 'config':
         config_workload(part, tier)
+    elif kind == 'auth':
+        auth_workload(part, tier)
     else:
         client_workload(part, tier)
     return part.as_dict()
@@ -491,7 +572,7 @@ def _worker(task):
 def run(tier, seed):
     rep = Reporter('C20', 'exploration', tier, seed)
     tasks = [('grid', tier, i, 12) for i in range(12)] + [('decode', tier, i, 8) for i in range(8)] + \
-            [('client', tier, 0, 1), ('config', tier, 0, 1)]
+            [('client', tier, 0, 1), ('config', tier, 0, 1), ('auth', tier, 0, 1)]
     for part in pmap(_worker, tasks):
         rep.merge(part)
     ex = rep.counters.get('executions', 0)
@@ -508,7 +589,9 @@ def run(tier, seed):
              "failures; clients built from configuration files and from arguments whose password is a "
              "canary in 14 text shapes (%, %(x)s, ${x}, quotes, ...), each followed by an operation "
              "carrying the credential, and server configuration files with a password-bearing SLUGS "
-             "URL. distinct_nontrivial = number of distinct canary text forms searched for (raw, "
+             "URL; sessions authenticating through SLUGS services whose URL embeds a password, under 12 "
+             "scripted service behaviours (real requests.Response objects and exceptions) x 3 requests. "
+             "distinct_nontrivial = number of distinct canary text forms searched for (raw, "
              "repr, hex lower/upper, base64, utf-8 of 13 canaries)",
         log_records_scanned=recs, canaries=len(all_canaries()), exhaustive=False,
     ), assumptions=[
@@ -524,7 +607,7 @@ def replay(doc):
     global FILTER
     wl = doc.get('workload')
     keys = {'grid': ('target', 'probe', 'version', 'user'), 'decode': ('request', 'mutation', 'version'),
-            'client': ('op', 'version'), 'config': ('shape',)}.get(wl)
+            'client': ('op', 'version'), 'config': ('shape',), 'auth': ()}.get(wl)
     if keys is None:
         return False, 'unknown workload %r' % wl
     FILTER = {k: doc.get(k) for k in keys}
@@ -537,6 +620,8 @@ def replay(doc):
             decode_failure_workload(part, 'thorough', 0, 1)
         elif wl == 'client':
             client_workload(part, 'thorough')
+        elif wl == 'auth':
+            auth_workload(part, 'thorough')
         else:
             config_workload(part, 'thorough')
     finally:
